@@ -103,6 +103,10 @@ def run_history(scn, ch, make_world, alphabet, budgets, on_quiescent, res=None, 
             if on_window_end is not None:
                 on_window_end(world, res, g, win, why)
             world.settle(settle_checks)
+            if not world.quiescent():
+                # an operation begun by the last check is still in flight: the oracles are about quiescent points
+                world.run(until=lambda w: w.quiescent(), horizon=horizon)
+            world.quiescent_ok = world.quiescent()
             on_quiescent(world, res, g, win)
             d = canon(world)
             res.states.append(d)
